@@ -302,7 +302,7 @@ def unit_eval(u, res):
 
 
 def replay_ce(ce):
-    if 'operator' in ce and 'children' in ce:
+    if ('operator' in ce and 'children' in ce) or ce.get('walk'):
         import c08
         return c08.replay_ce(ce)
     if not ce.get('source'):
